@@ -917,7 +917,16 @@ struct Ser {
 
     std::string recordName(DeclContext const* dc) const
     {
-        if (auto const* r = dyn_cast_or_null<CXXRecordDecl>(dc)) { return qname(r); }
+        if (auto const* r = dyn_cast_or_null<CXXRecordDecl>(dc)) {
+            std::string outer;
+            if (auto const* pr = dyn_cast_or_null<CXXRecordDecl>(r->getDeclContext())) {
+                outer = recordName(pr) + "::" + r->getNameAsString();
+            } else {
+                outer = qname(r);
+            }
+            if (isa<ClassTemplateSpecializationDecl>(r)) { outer += "<" + specArgs(r) + ">"; }
+            return outer;
+        }
         return "";
     }
 
@@ -971,6 +980,7 @@ struct Ser {
         if (auto const* m = dyn_cast<CXXMethodDecl>(f)) {
             kind        = "method";
             o["record"] = recordName(m->getParent());
+            o["q"]      = recordName(m->getParent()) + "::" + f->getNameAsString();
             o["const"]  = m->isConst();
             o["refq"]   = m->getRefQualifier() == RQ_LValue ? "&" : (m->getRefQualifier() == RQ_RValue ? "&&" : "");
             o["access"] = accessName(m->getAccess());
@@ -1033,7 +1043,7 @@ struct Ser {
     {
         json::Object o;
         o["t"]    = "record";
-        o["q"]    = qname(r);
+        o["q"]    = recordName(r);
         o["n"]    = r->getNameAsString();
         o["file"] = relFile(r->getLocation());
         o["line"] = lineOf(r->getBeginLoc());
